@@ -244,6 +244,7 @@ def run(repo):
         # bilinear guards
         n_checks += _bilinear(W, repo, record, front)
 
+    n_checks += _setter_curvature(repo, record)
     res.obligations = n_checks
     res.discharged = n_checks - sum(len(v) for v in failures.values())
     res.instances = [{'interpreted_checks': n_checks, 'letters': letters,
@@ -270,6 +271,8 @@ def _opname(o, v):
 
 
 def _owner(repo, cname, method):
+    if '(' in cname:
+        return '%s.Model.%s' % (cname[cname.index('(') + 1:-1], method)
     ci = repo.module('lp').classes.get(cname)
     if ci is None:
         return 'lp.' + cname
@@ -421,4 +424,45 @@ def _bilinear(W, repo, record, front):
                 if first != 'check_numeric(other)':
                     record(cname, nm, 'decision rule times a non-numeric operand',
                            'does not start with check_numeric(other)')
+    return n
+
+
+SETTERS = ['lp.Model.min', 'lp.Model.max', 'ro.Model.min', 'ro.Model.max', 'ro.Model.minmax',
+           'ro.Model.maxmin', 'dro.Model.min', 'dro.Model.max', 'dro.Model.minsup', 'dro.Model.maxinf']
+
+
+def _setter_curvature(repo, record):
+    """Timing clause: every objective setter stores self.obj only past a guard that raises for
+    the wrong curvature sign (-1 for min*, +1 for max*)."""
+    from rsx.flow import MustFlow
+    from rsx.loader import body_stmts, is_self_attr
+    n = 0
+    for fq in SETTERS:
+        fi = repo.func(fq)
+        want = -1 if fi.name.startswith('min') else 1
+        par = fi.params[1]
+
+        class _F(MustFlow):
+            def __init__(self):
+                super().__init__()
+                self.stores = []
+
+            def visit(self, node, state):
+                if isinstance(node, ast.Assign) and any(is_self_attr(t, 'obj') for t in node.targets):
+                    ok = False
+                    for f in state:
+                        if isinstance(f, tuple) and f[0] == 'cond' and f[1] is False and \
+                                ('%s.sign == %d' % (par, want)) in f[2].replace('(', '').replace(')', ''):
+                            ok = True
+                    self.stores.append(ok)
+        fl = _F()
+        fl.run(body_stmts(fi))
+        n += 1
+        if not fl.stores:
+            raise AnalysisError('%s: store of self.obj not found' % fq)
+        if not all(fl.stores):
+            record(fi.cls.name + '(' + fi.module + ')', fi.name, 'objective hand-over',
+                   '%s stores the objective without having rejected curvature sign %+d: a %s objective is '
+                   'accepted by %s() and only fails later, in do_math()'
+                   % (fq, want, 'concave' if want == -1 else 'convex', fi.name))
     return n
